@@ -800,3 +800,73 @@ pub fn double_en_passant(full: bool) -> Vec<Pos> {
         .collect();
     res.into_iter().flatten().collect()
 }
+
+/// "Crowded armies": one side has all sixteen men, one or two of its pawns promoted to queens
+/// (2 or 3 queens) and its king advanced to the third / fourth rank; the other side's king stands
+/// two squares away (every such square), with or without its own full army at home; the side
+/// with the roaming bare / home army king is to move.  The squares between the kings are guarded
+/// by the crowded side's king alone in many members (attack-map completeness with > 16 attack
+/// sources). Both colours.
+pub fn crowded_armies() -> Vec<Pos> {
+    let mut out = Vec::new();
+    let home = Pos::startpos();
+    for crowded in [Side::White, Side::Black] {
+        let flip = |s: u8| if crowded == Side::White { s } else { 63 - s };
+        for wk in [20u8, 19, 28] {
+            // e3, d3, e4 (from the crowded side's point of view)
+            for with_army in [false, true] {
+                for nq in [2usize, 3] {
+                    for qs in 16..48u8 {
+                        for (df, dr) in [(-2i8, -2i8), (-2, -1), (-2, 0), (-2, 1), (-2, 2), (-1, 2), (0, 2), (1, 2), (2, 2), (2, 1), (2, 0), (2, -1), (2, -2), (1, -2), (0, -2), (-1, -2)] {
+                            let bk = match mk_sq(file_of(wk) + df, rank_of(wk) + dr) {
+                                Some(b) => b,
+                                None => continue,
+                            };
+                            let mut p = Pos::empty();
+                            p.stm = crowded.other();
+                            // crowded side's army: home squares of White mapped through `flip`
+                            for sq in 0..16u8 {
+                                if let Some((k, _)) = home.sq[sq as usize] {
+                                    p.sq[flip(sq) as usize] = Some((k, crowded));
+                                }
+                            }
+                            // king leaves e1 for wk; the e-pawn (and for three queens the d-pawn) has queened
+                            p.sq[flip(4) as usize] = None;
+                            p.sq[flip(12) as usize] = None;
+                            if nq == 3 {
+                                p.sq[flip(11) as usize] = None;
+                            }
+                            if with_army {
+                                for sq in 48..64u8 {
+                                    if let Some((k, _)) = home.sq[sq as usize] {
+                                        if k != Kind::King {
+                                            p.sq[flip(sq) as usize] = Some((k, crowded.other()));
+                                        }
+                                    }
+                                }
+                            }
+                            let mut clash = false;
+                            let mut put = |p: &mut Pos, sq: u8, pc: (Kind, Side)| {
+                                if p.sq[flip(sq) as usize].is_some() {
+                                    clash = true;
+                                }
+                                p.sq[flip(sq) as usize] = Some(pc);
+                            };
+                            put(&mut p, wk, (Kind::King, crowded));
+                            put(&mut p, qs, (Kind::Queen, crowded));
+                            if nq == 3 {
+                                put(&mut p, (qs + 9) % 32 + 16, (Kind::Queen, crowded));
+                            }
+                            put(&mut p, bk, (Kind::King, crowded.other()));
+                            if clash || !p.is_consistent() {
+                                continue;
+                            }
+                            out.push(p);
+                        }
+                    }
+                }
+            }
+        }
+    }
+    out
+}
